@@ -89,7 +89,8 @@ fn piece(fi: usize) -> BoxedStrategy<String> {
     prop_oneof![
         48 => select(kws).prop_map(|s| s.to_string()),
         14 => gen::name(fi, gen::NameProfile::Main),
-        12 => select(NUMBERS.to_vec()).prop_map(|s| s.to_string()),
+        9 => select(NUMBERS.to_vec()).prop_map(|s| s.to_string()),
+        3 => gen::edge_numeral(),
         7 => select(SPACES.to_vec()).prop_map(|s| s.to_string()),
         4 => select(STRAY.to_vec()).prop_map(|s| s.to_string()),
         4 => select(INVISIBLE.to_vec()).prop_map(|s| s.to_string()),
@@ -117,6 +118,8 @@ enum Mutation {
     Insert(u16, String),
     DropClosers,
     Replace(u16, String),
+    /// overwrite the n-th numeral (maximal run of ASCII digits and dots) with a boundary numeral
+    Numeral(u16, String),
 }
 
 fn mutation(fi: usize) -> BoxedStrategy<Mutation> {
@@ -128,6 +131,7 @@ fn mutation(fi: usize) -> BoxedStrategy<Mutation> {
         25 => (any::<u16>(), piece(fi)).prop_map(|(p, s)| Mutation::Insert(p, s)),
         5 => Just(Mutation::DropClosers),
         15 => (any::<u16>(), piece(fi)).prop_map(|(p, s)| Mutation::Replace(p, s)),
+        8 => (any::<u16>(), gen::edge_numeral()).prop_map(|(p, s)| Mutation::Numeral(p, s)),
     ]
     .boxed()
 }
@@ -139,6 +143,27 @@ fn pos(frac: u16, len: usize) -> usize {
 fn apply(fi: usize, s: &str, m: &Mutation) -> String {
     let mut c: Vec<char> = s.chars().collect();
     match m {
+        Mutation::Numeral(p, text) => {
+            let is_num = |ch: char| ch.is_ascii_digit() || ch == '.';
+            let mut runs: Vec<(usize, usize)> = vec![];
+            let mut i = 0;
+            while i < c.len() {
+                if c[i].is_ascii_digit() {
+                    let mut j = i;
+                    while j < c.len() && is_num(c[j]) {
+                        j += 1;
+                    }
+                    runs.push((i, j));
+                    i = j;
+                } else {
+                    i += 1;
+                }
+            }
+            if !runs.is_empty() {
+                let (a, b) = runs[pos(*p, runs.len() - 1)];
+                c.splice(a..b, text.chars());
+            }
+        }
         Mutation::Delete(p) => {
             if !c.is_empty() {
                 let i = pos(*p, c.len() - 1);
